@@ -149,6 +149,11 @@ def validateRepeat (p : RepeatP) : Res :=
 /-- `repeat.back_key_function` along the axis: `none` = ZeroDivisionError. -/
 def repeatKey (r bi : Nat) : Option Nat := if r = 0 then none else some (bi / r)
 
+/-- the coordinate computed at axis position `i`: `bi // repeats if i == axis else bi` — the comparison uses the
+*un-normalised* `axis`, so for a negative axis no position matches. -/
+def repeatKeyAt (axis : Int) (i r bi : Nat) : Option Nat :=
+  if (i : Int) = axis then repeatKey r bi else some bi
+
 /-! ## concat -/
 
 structure Arr where
@@ -297,9 +302,11 @@ def regionAligned (p : RegionP) : Bool :=
   !((match p.start with | some s => s % p.tgtChunk != 0 | none => false) ||
     (match p.stop with | some e => e % p.tgtChunk != 0 && e != p.tgtLen | none => false))
 
-/-- `_store_array` with a region, non-negative slices with step ≥ 1. -/
+/-- `_store_array` with a region, non-negative slices with step ≥ 1.  A region made of `slice(None)` only takes the
+whole-array branch, which checks nothing. -/
 def validateRegion (p : RegionP) : Res :=
-  if !regionAligned p then .error .ValueError
+  if p.start.isNone && p.stop.isNone && p.step.isNone then .ok ()
+  else if !regionAligned p then .error .ValueError
   else if p.srcLen ≠ p.selLen then .error .ValueError
   else .ok ()
 
@@ -484,7 +491,7 @@ def validateMapBlocks (p : MapBlocksP) : MBResult :=
 
 inductive Ix where
   | int (i : Int)
-  | slice                       -- any slice (ndindex clips it)
+  | slice (negFlip : Bool)      -- any slice (ndindex clips it); flag: negative step selecting ≥ 2 elements (needs a flip)
   | intArray (vals : List Int)
   | boolArray (len : Nat)
   | newaxis
@@ -523,11 +530,11 @@ def validateIndex (shape : List Nat) (key : List Ix) : Res :=
   else if nEll > 1 then .error .IndexError
   else
     let used := (key.map Ix.consumes).sum
-    if used > shape.length then .error .IndexError
+    let nArr := (key.filter Ix.isArray).length
+    let nAL := (key.filter Ix.arrayLike).length
+    if nArr ≥ 1 && separated key then .error .NotImplementedError
+    else if used > shape.length then .error .IndexError
     else
-      let nArr := (key.filter Ix.isArray).length
-      let nAL := (key.filter Ix.arrayLike).length
-      if nArr ≥ 1 && separated key then .error .NotImplementedError else
       -- align index objects with axes (the ellipsis stands for the unused axes)
       let before := key.takeWhile (fun k => match k with | .ellipsis => false | _ => true)
       let after := (key.dropWhile (fun k => match k with | .ellipsis => false | _ => true)).drop 1
@@ -542,8 +549,13 @@ def validateIndex (shape : List Nat) (key : List Ix) : Res :=
         | .intArray vs => vs.any (fun i => i < -(n : Int) ∨ i ≥ (n : Int))
         | .boolArray len => len ≠ n
         | _ => false)
+      let nInts := (key.filter (fun k => match k with | .int _ => true | _ => false)).length
       if oob then .error .IndexError
       else if nArr ≥ 1 && nAL ≥ 2 then .error .NotImplementedError
+      -- `where_negative_step` holds *input* axis numbers but `flip` is applied to the result, which has lost the
+      -- axes of integer indices: validate_axis refuses when the number is out of range (AxisError)
+      else if pairs.any (fun (k, ax) => match k with | .slice true => ax ≥ shape.length - nInts | _ => false) then
+        .error .IndexError
       else .ok ()
 
 /-! ## scan -/
